@@ -134,7 +134,8 @@ def circuit_docs(spec, docs, top="net", nodes=None, edges=None):
         d = {"weight": float(e["w"])}
         if e.get("d") is not None:
             d["delay"] = float(e["d"])
-        by_scope.setdefault(e.get("scope") or "", []).append([e["s"], e["t"], None, d])
+        d.update(e.get("ev") or {})
+        by_scope.setdefault(e.get("scope") or "", []).append([e["s"], e["t"], e.get("et") or None, d])
 
     def level(prefix, entries, cname):
         doc = {"base": "CircuitTemplate"}
@@ -167,6 +168,12 @@ def spec_docs(spec):
             docs[ntname] = {"base": "NodeTemplate", "operators": {o: dict(ov.get(o, {})) for o in nt["ops"]}}
         else:
             docs[ntname] = {"base": "NodeTemplate", "operators": list(nt["ops"])}
+    for etname, et in (spec.get("etypes") or {}).items():
+        ov = et.get("ov") or {}
+        if any(ov.get(o) for o in et["ops"]):
+            docs[etname] = {"base": "EdgeTemplate", "operators": {o: dict(ov.get(o, {})) for o in et["ops"]}}
+        else:
+            docs[etname] = {"base": "EdgeTemplate", "operators": list(et["ops"])}
     circuit_docs(spec, docs)
     return docs
 
@@ -206,7 +213,7 @@ def derivation(draw, spec):
     plans = {}
     for o in sorted(spec["ops"]):
         od = spec["ops"][o]
-        if not draw(st.booleans()):
+        if o.startswith("eop") or not draw(st.booleans()):
             continue
         steps = []
         cur = copy.deepcopy(od)          # the definition the chain has to arrive at; we go backwards
@@ -323,7 +330,8 @@ def derived_docs(spec, plan):
             circuit_docs(spec, docs, top="net_base", nodes=spec["nodes"][:-1], edges=keep_e)
             doc = {"base": "net_base", "nodes": {last: spec["nodes"][-1][1]}}
             if add_e:
-                doc["edges"] = [[e["s"], e["t"], None, {"weight": float(e["w"])}] for e in add_e]
+                doc["edges"] = [[e["s"], e["t"], e.get("et") or None, dict({"weight": float(e["w"])}, **(e.get("ev") or {}))]
+                                for e in add_e]
             docs["net"] = doc
     return docs
 
@@ -340,6 +348,8 @@ def dict_decl(decl):
 def derived_python(spec, plan, use_dicts=False, changed=None):
     """the same derivations through the Python classes; `changed` collects base templates that a derivation altered"""
     from pyrates import CircuitTemplate, NodeTemplate, OperatorTemplate
+    if any(e.get("et") for e in spec["edges"]):
+        return None
     conv = (lambda d: {k: dict_decl(v) for k, v in d.items()}) if use_dicts else (lambda d: dict(d))
     ops = {}
     for o, od in spec["ops"].items():
@@ -383,7 +393,8 @@ class DefinitionsArm(Arm):
     min_per_shard = 10
     case_timeout = 300
     required_labels = ("derived:rename", "derived:append", "derived:remove", "derived:add", "derived:defaults",
-                       "derived:circuit", "overrides", "hierarchy", "containment", "same_node_template_names")
+                       "derived:circuit", "overrides", "hierarchy", "containment", "same_node_template_names",
+                       "edge_template", "edge_template_shared", "edge_attribute_values")
 
     def strategy(self, ctx):
         @st.composite
@@ -391,6 +402,8 @@ class DefinitionsArm(Arm):
             spec = draw(gen.model_spec({"leak": True, "max_types": 2, "max_ops": 2, "max_nodes": 4, "min_nodes": 1,
                                         "max_edges": 4, "expr_depth": 2, "depths": [0, 0, 0, 1, 2], "collision": False,
                                         "max_alg": 1, "funcs": ["tanh", "sigmoid", "exp", "sin"], "pow": True}))
+            if draw(st.integers(0, 2)) == 0:
+                spec = draw(gen.with_edge_templates(spec))
             plan = draw(derivation(spec))
             return {"spec": spec, "plan": plan, "same_names": draw(st.sampled_from([False, False, True])),
                     "dict_decl": draw(st.booleans())}
@@ -430,6 +443,13 @@ class DefinitionsArm(Arm):
             lab.append("derived:circuit")
         if case.get("dict_decl") and plan["ops"]:
             lab.append("dict_declarations")
+        used_et = [e["et"] for e in spec["edges"] if e.get("et")]
+        if used_et:
+            lab.append("edge_template")
+            if len(used_et) != len(set(used_et)):
+                lab.append("edge_template_shared")
+            if any(e.get("ev") for e in spec["edges"]):
+                lab.append("edge_attribute_values")
         res.labels = sorted(set(lab))
         res.nontrivial = bool(lab)
         def build_P():
